@@ -292,7 +292,7 @@ func (e *nonNilEngine) paramNonNil(par *ssa.Parameter) bool {
 			idx = i
 		}
 	}
-	if idx < 0 || e.p == nil || !staticCallersOnly(e.p, fn) {
+	if idx < 0 || e.p == nil || apiVisible(fn) || !staticCallersOnly(e.p, fn) {
 		e.memo[key] = 3
 		if os.Getenv("HCLCHECK_NONNIL_DEBUG") != "" {
 			fmt.Fprintf(os.Stderr, "nonnil: param %s of %s: not only static callers\n", par.Name(), FuncName(fn))
@@ -399,7 +399,7 @@ func (e *nonNilEngine) nilReach(v ssa.Value, at *ssa.BasicBlock, seen map[ssa.Va
 				idx = i
 			}
 		}
-		if idx < 0 || e.p == nil || !staticCallersOnly(e.p, fn) {
+		if idx < 0 || e.p == nil || apiVisible(fn) || !staticCallersOnly(e.p, fn) {
 			return false
 		}
 		key := fmt.Sprintf("%p/par/%d", fn, idx)
@@ -577,4 +577,19 @@ func (e *nonNilEngine) explain(fn *ssa.Function, idx, d int) string {
 		}
 	}
 	return out
+}
+
+
+// apiVisible: the function can be called from outside the module (exported, and so is its receiver
+// type if it has one): the call sites in the module are not all there are.
+func apiVisible(fn *ssa.Function) bool {
+	if fn.Parent() != nil || fn.Object() == nil || !fn.Object().Exported() {
+		return false
+	}
+	if recv := fn.Signature.Recv(); recv != nil {
+		if nt := namedOf(recv.Type()); nt != nil && !nt.Obj().Exported() {
+			return false
+		}
+	}
+	return true
 }
